@@ -43,14 +43,16 @@ type ClientSpec struct {
 	CloseAfter int // >0: a FIN becomes schedulable once this many chunks were delivered; 0: never
 	CloseRST   bool
 	Expect     [][]byte // reference reply per request (nil entry = unspecified)
+	ExpectAlt  map[int][]byte // position -> second acceptable reply
 	ExpectEOF  bool     // reference: proxy closes the connection after the last reply
 	Reqs       [][]byte // the requests, for reporting
 }
 
 type Fault struct {
-	Kind   string // "backend-close", "backend-rst"
+	Kind   string // "backend-close", "backend-rst", "topo" (CLUSTER NODES update adopted by the refresh code)
 	Addr   string // node address (first open connection to it)
 	AfterW int    // enabled once that connection has received this many commands
+	Nodes  []NodeSpec // topo: the new topology
 }
 
 // ReplyFn lets a scenario override what a node answers. Return nil for the model's default.
@@ -81,6 +83,7 @@ type Scenario struct {
 	RefuseDial   map[string]int  // addr -> number of initial dials refused (-1: always)
 	Faults       []Fault
 	Ticks        []time.Duration // TICK events available, in order
+	TickGate     func(w *World) bool // nil or: TICK is only enabled when this holds
 	SlowBackends bool
 	// exploration
 	Bound       int // max deviations; <0: unbounded
@@ -90,6 +93,11 @@ type Scenario struct {
 	IntnChoice  bool
 	WriteOracle bool
 	NoBootTick  bool
+	ReuseFds    bool
+	AfterBoot   func(w *World)
+	// cross-execution oracle: Observe is recorded per execution, Final judges the multiset of a scenario
+	Observe func(w *World) string
+	Final   func(obs map[string]int) []Violation
 	// oracle
 	CrashSig string // signature to report for a proxy panic in this scenario ("" = "crash")
 	HorizonSig string // signature to report when the step horizon is hit ("" = not a violation by itself)
@@ -127,6 +135,7 @@ type BConn struct {
 	ReadOnly  bool
 	Asking    bool
 	hsMerged  int
+	WrittenAfterClose int
 	Delivered int      // replies whose last byte has been handed to the proxy's socket
 	PreData   []string // handshake commands seen before the first data command
 	SawData   bool
@@ -174,6 +183,7 @@ type World struct {
 	RunErr     error
 	EarlyViol  *Violation
 	ProbeReplies int
+	Topo       []NodeSpec // current topology as last injected (nil: Sc.Nodes)
 }
 
 type evKind int
@@ -293,6 +303,7 @@ func Execute(sc *Scenario, choose vsys.Chooser) *World {
 	vsys.Choose = choose
 	vsys.WriteOracle = sc.WriteOracle
 	vsys.IntnChoice = sc.IntnChoice
+	vsys.ReuseFds = sc.ReuseFds
 	vsys.OrderSites = map[string]bool{}
 	for _, s := range sc.OrderSites {
 		vsys.OrderSites[s] = true
@@ -335,7 +346,7 @@ func Execute(sc *Scenario, choose vsys.Chooser) *World {
 	for i := range sc.Clients {
 		cs := &sc.Clients[i]
 		c := &Client{Idx: i, Spec: cs}
-		s := vsys.NewSock(fmt.Sprintf("c%d", i))
+		s := vsys.NewPendingSock(fmt.Sprintf("c%d", i))
 		s.Addr = cs.IP
 		if s.Addr == [4]byte{} {
 			s.Addr = [4]byte{127, 0, 0, 1}
@@ -368,6 +379,9 @@ func Execute(sc *Scenario, choose vsys.Chooser) *World {
 			if p := vw.VerifTicker(); p != nil {
 				w.notePanic(p, "")
 			}
+		}
+		if sc.AfterBoot != nil {
+			sc.AfterBoot(w)
 		}
 	}()
 	if w.VW == nil || w.Panic != nil || w.Livelock {
@@ -453,7 +467,9 @@ func (w *World) enabled() []event {
 		if w.faultUsed[i] {
 			continue
 		}
-		if bc := w.faultTarget(f); bc != nil {
+		if f.Kind == "topo" {
+			evs = append(evs, event{evFault, i})
+		} else if bc := w.faultTarget(f); bc != nil {
 			evs = append(evs, event{evFault, i})
 		}
 	}
@@ -462,7 +478,7 @@ func (w *World) enabled() []event {
 			evs = append(evs, event{evClientClose, i})
 		}
 	}
-	if w.Ticks < len(w.Sc.Ticks) {
+	if w.Ticks < len(w.Sc.Ticks) && (w.Sc.TickGate == nil || w.Sc.TickGate(w)) {
 		evs = append(evs, event{evTick, 0})
 	}
 	return evs
@@ -569,6 +585,13 @@ func (w *World) wait() (fd int, mask uint32, n int, stop bool) {
 		case evFault:
 			f := w.Sc.Faults[ev.idx]
 			w.faultUsed[ev.idx] = true
+			if f.Kind == "topo" {
+				w.Topo = f.Nodes
+				if err := core.VerifUpdateNodes(NodesText(f.Nodes)); err != nil {
+					vsys.Tracef("topology update rejected: %v", err)
+				}
+				continue
+			}
 			bc := w.faultTarget(f)
 			if f.Kind == "backend-rst" {
 				bc.Sock.PeerRST = true
@@ -630,6 +653,10 @@ func (w *World) nodePassword() string {
 
 func (w *World) feed(bc *BConn, b []byte) {
 	if bc.Malformed != "" {
+		return
+	}
+	if bc.Sock.PeerFIN || bc.Sock.PeerRST {
+		bc.WrittenAfterClose += len(b) // the node has closed this connection: nobody reads these bytes
 		return
 	}
 	bc.inbox = append(bc.inbox, b...)
